@@ -227,9 +227,19 @@ def unknown_name_stream(ctx, n):
         rng = ctx.rng
         nodes = rules.rand_tree(rng, rng.choice((rules.COLLISION_FREE, rules.ADVERSARIAL)), max_nodes=10)
         edges = rules.rand_edges(rng, nodes)
-        limit = rng.choice([None, None, 1, 2])
-        arch = rules.make_arch_direct(nodes, edges, limit)
-        present = set(arch.modules)
+        limit = rng.choice([None, None, 1, 2, 0])
+        # one case in five through a real scan of a file tree (the public entry point passes the limit on)
+        scanned = rng.random() < 0.2
+        if scanned:
+            inner_n = {x for x in nodes if any(m.startswith(x + ".") for m in nodes)}
+            edges = [(a, b) for a, b in edges if a not in inner_n]
+            arch = rules.make_arch_scan(nodes, edges, limit)
+            ctx.stat("unknown_name_on_scanned_architecture")
+        else:
+            arch = rules.make_arch_direct(nodes, edges, limit)
+        # what the architecture holds according to the documentation (names truncated to the level limit) - not read off the
+        # architecture object, which a defect may have built too deep
+        present = set(nodes) if limit is None else {".".join(x.split(".")[:limit + 1]) for x in nodes}
         good = rng.choice(sorted(present))
         base = rng.choice(nodes)
         bad = rng.choice([base + "x", base + ".zz", base[:-1] or "q", "rr." + base, base.upper() + "_", base + "." + base.split(".")[-1], base + ".{z}", "%s." + base, base + " "])
@@ -249,18 +259,18 @@ def unknown_name_stream(ctx, n):
             ctx.stat("unknown_name_in_batch" + ("_below_listed_parent" if any(bad.startswith(m + ".") for m in batch) else ""))
         specs = rules.all_shapes((rng.choice(["named", "sub"]), [good]), (rng.choice(["named", "sub"]), batch), with_aliases=False) + \
             rules.all_shapes((rng.choice(["named", "sub"]), batch), (rng.choice(["named", "sub"]), [good]))
-        (rec, _w, _m), = rules.eval_cases([dict(nodes=nodes, edges=edges, specs=specs, limit=limit)])
+        (rec, _w, _m), = rules.eval_cases([dict(nodes=nodes, edges=edges, specs=specs, limit=limit, mode="scan" if scanned else "direct")])
         for spec, (io, mo) in zip(specs, rec):
             ctx.evaluations += 1
             ctx.stat("unknown_name_" + io[0])
-            case = dict(nodes=nodes, edges=edges, level_limit=limit, spec=rules._jsonable_spec(spec), impl=io[0])
+            case = dict(nodes=nodes, edges=edges, level_limit=limit, scanned=scanned, spec=rules._jsonable_spec(spec), impl=io[0])
             if io[0] in ("PASS", "FAIL"):
                 viol += 1
                 ctx.violation(case, f"rule mentioning the absent module {bad!r} produced the verdict {io[0]}", {"kind": "unknown_name"})
             if not rules.same_verdict(io, mo):
                 ctx.disagreement(dict(case, model=mo[0]), f"unknown-name rule: implementation {io[0]}, model {mo[0]}")
         # the same batch as a LAYER (subject, then object) of a layer rule: 14 shapes incl. the two any-layer aliases
-        if limit is None and len(present) >= 3:
+        if limit is None and not scanned and len(present) >= 3:
             from harness import layers
             from harness.props import c05
             rest = sorted(x for x in present if x != good and x not in batch and x != "r")
